@@ -142,6 +142,11 @@ func (fr *FileReader) readNextBlock() (*Block, error) {
 	// Read compressed data
 	compressedData := make([]byte, blockHeader.CompressedSize)
 	if _, err := io.ReadFull(fr.file, compressedData); err != nil {
+		if err == io.ErrUnexpectedEOF || err == io.EOF {
+			// the body of the last block is not completely present: the torn tail of an
+			// interrupted append (the process died while writing it) -- the file ends here
+			return nil, io.EOF
+		}
 		return nil, err
 	}
 	// Parse block
